@@ -131,7 +131,14 @@ func runFmtE2E(c *fmtCase, r *gen.Rand) {
 	defer k.Close()
 	// the SDK writes through the SQL metastore (fake engine) so the stored row format is exercised too
 	tbl := &fake.SQLTable{Name: "encryption_key", Style: "?"}
-	ms := persistence.NewSQLMetastore(fake.OpenSQL(tbl))
+	var ms ae.Metastore = persistence.NewSQLMetastore(fake.OpenSQL(tbl))
+	// half of the cases run in region-suffix mode (a metastore reporting a region suffix, as the DynamoDB global-table set-up does)
+	sfx := ""
+	if r.Bool() {
+		sfx = gen.Pick(r, []string{"us-west-2", "eu-central-1"})
+		ms = suffixedMetastore{ms, sfx}
+		sfx = "_" + sfx
+	}
 	sf := ae.NewSessionFactory(&ae.Config{Service: "svc", Product: "prod", Policy: ae.NewCryptoPolicy()}, ms, k, crypto)
 	defer sf.Close()
 	part := gen.Pick(r, []string{"p1", "partition_with_underscores", "x"})
@@ -152,7 +159,7 @@ func runFmtE2E(c *fmtCase, r *gen.Rand) {
 			viol("reference cannot parse SDK JSON: %v", err)
 			continue
 		}
-		if want := "_IK_" + part + "_svc_prod"; pid != want {
+		if want := "_IK_" + part + "_svc_prod" + sfx; pid != want {
 			viol("intermediate key id %q, documented %q", pid, want)
 		}
 		ikRow, skRow := refRow(tbl, pid, pc), ""
@@ -168,8 +175,8 @@ func runFmtE2E(c *fmtCase, r *gen.Rand) {
 			viol("reference cannot read the IK row %q: %v", ikRow, err)
 			continue
 		}
-		if ikm.ParentKeyMeta.KeyId != "_SK_svc_prod" {
-			viol("system key id %q, documented _SK_svc_prod", ikm.ParentKeyMeta.KeyId)
+		if ikm.ParentKeyMeta.KeyId != "_SK_svc_prod"+sfx {
+			viol("system key id %q named by the intermediate key record, documented _SK_svc_prod%s", ikm.ParentKeyMeta.KeyId, sfx)
 		}
 		skRow = refRow(tbl, ikm.ParentKeyMeta.KeyId, ikm.ParentKeyMeta.Created)
 		var skm struct{ Key string }
@@ -210,6 +217,14 @@ func runFmtE2E(c *fmtCase, r *gen.Rand) {
 		}
 	}
 }
+
+// suffixedMetastore reports a region suffix (key ids then end in _<region>)
+type suffixedMetastore struct {
+	ae.Metastore
+	suffix string
+}
+
+func (m suffixedMetastore) GetRegionSuffix() string { return m.suffix }
 
 func refRow(t *fake.SQLTable, id string, created int64) string {
 	return t.Lookup(id, time.Unix(created, 0))
